@@ -117,7 +117,7 @@ def line_of(h, w, rows):
 
 
 def gen(rng, tier):
-    per = 3 if tier == 'quick' else 40
+    per = 10 if tier == 'quick' else 150
     # every class at every size 0..10
     for n in range(0, 11):
         for cls in CLASSES:
